@@ -342,3 +342,28 @@ def replay(path):
     log("replay: rc=%s image equal to .ori: %s\n%s" % (res["rc"], res["img"] == ori, res["msg"]))
     log("recorded: %s" % v["what"])
     return 0
+
+
+def selftest(tier):
+    """binding demonstration: recorded split events are accepted, the same events with one field changed are
+    rejected.  (Source mutations: selftest/C16-m*.py with selftest/mutate_and_check.sh.)"""
+    import copy
+    bld = build.get("hook")
+    src = "\tcpu\t68000\nlab:\tmove.w\t#\"a;b\",d0\t; comment\nl2\tdc.b\t1 , 2,\t'x'\n"
+    r = aslrun.assemble(bld, {"a.asm": src}, opts=["-q"], events="file,stmt,split")
+    recs = [x for x in srcline.split_records(r.trace, 1)]
+    ev = [srcline.trace_event(x) for x in recs]
+    a = copy.deepcopy(ev)
+    a[1]["op"] = a[1]["op"][:-1]
+    b = copy.deepcopy(ev)
+    b[2]["args"] = b[2]["args"][:-1]
+    c = copy.deepcopy(ev)
+    c[1]["raw"] = [ch for ch in c[1]["raw"] if ch != 34]          # without the quotes the ; starts the comment
+    ok = True
+    for name, e, want in (("unchanged", ev, True), ("mnemonic shortened", a, False), ("argument dropped", b, False),
+                          ("quotes removed from the line", c, False)):
+        v = tracecheck.validate("SourceLine_Trace", [e])
+        log("selftest %-32s %s" % (name, "accepted" if v.accepted else "rejected"))
+        ok = ok and (v.accepted == want)
+    log("selftest C16 binding: %s" % ("OK" if ok else "FAILED"))
+    return 0 if ok else 1
